@@ -1,0 +1,17 @@
+//go:build !verif
+
+// Package verifhook holds the observation points used by the external
+// runtime-verification harness. Without the "verif" build tag every function
+// is an empty, inlineable no-op.
+package verifhook
+
+import "io"
+
+func Event(kind, oid string, n int64) {}
+func Yield(point string)              {}
+func Crash(point string)              {}
+func RenameCheck(src, dst string)     {}
+func ScaleDelayMs(ms uint64) uint64   { return ms }
+
+// BurstReader returns r unchanged.
+func BurstReader(r io.Reader, point string) io.Reader { return r }
